@@ -67,6 +67,7 @@ func (d *ReadBuf) Reset(data []byte) {
 // it with a fresh one.
 func (d *ReadBuf) ExtractResourceBank() *ResourceBank {
 	rb := d.rb
+	verifPoint(vpBufExtract)
 	d.rb = newResourceBank()
 	return rb
 }
@@ -181,6 +182,7 @@ type ResourceBank struct {
 }
 
 func newResourceBank() *ResourceBank {
+	verifPoint(vpBankGet)
 	return resourceBankPool.Get().(*ResourceBank)
 }
 
@@ -201,6 +203,7 @@ func (rb *ResourceBank) Alloc(rtyp reflect.Type) unsafe.Pointer {
 		// runs, and eventually we'll stop needing to grow.
 		rt.array = unsafe_NewArray(rt.ptyp, newCap)
 		rt.cap = newCap
+		verifPoint(vpBankAfterGrow)
 	}
 
 	i := rt.len
@@ -242,6 +245,7 @@ func (rb *ResourceBank) Close() {
 	// We also need to clear the string data
 	rb.sData = rb.sData[:0]
 
+	verifPoint(vpBankBeforePut)
 	resourceBankPool.Put(rb)
 }
 
